@@ -1,10 +1,11 @@
 #!/bin/bash
 # runs the repository's pinned baseline (guard off) and checks the 79 stable tests still pass
-cd "${VERIF_REPO:-/repo}" && /venv/bin/python -m pytest -ra -q -p no:cacheprovider --timeout=900 --continue-on-collection-errors --junitxml=/tmp/gt_baseline.junit.xml > /tmp/gt_baseline.log 2>&1
+cd "${VERIF_REPO:-/repo}" && /venv/bin/python -m pytest -ra -q -p no:cacheprovider --timeout=900 --continue-on-collection-errors --junitxml=/tmp/gt_baseline.$$.junit.xml > /tmp/gt_baseline.$$.log 2>&1
+export GT_JUNIT=/tmp/gt_baseline.$$.junit.xml
 /venv/bin/python - <<'PY'
-import json, xml.etree.ElementTree as ET, sys
+import json, xml.etree.ElementTree as ET, sys, os
 base = json.load(open('/root/.vp/BASELINE.json'))
-t = ET.parse('/tmp/gt_baseline.junit.xml')
+t = ET.parse(os.environ['GT_JUNIT'])
 ok = set()
 for tc in t.iter('testcase'):
     if not any(ch.tag in ('failure', 'error', 'skipped') for ch in tc):
@@ -14,3 +15,4 @@ print(f"baseline: {len(base['stable_pass']) - len(missing)}/{len(base['stable_pa
 for m in missing: print("  NOT PASSING:", m)
 sys.exit(1 if missing else 0)
 PY
+rc=$?; rm -f /tmp/gt_baseline.$$.junit.xml /tmp/gt_baseline.$$.log; exit $rc
